@@ -79,27 +79,27 @@ CHECKS = {
     },
     "C12": {
         "technique": "arm-table parity of super_image / value over the syn AST, must-pass-through of the checked_* guards, MIR cast facts with dominating round-trip tests, reviewed table of the 14 primitive pairs",
-        "level": "Decides set/value parity of the 24 dispatching injections (J1), that primitive values and images go through the checked guards (J2), that lossy numeric casts are dominated by a round-trip test (J3), that narrowing / non-monotone conversions can refuse and only map single values (J4), and untruncated value enumerations (N1). "
+        "level": "Decides set/value parity of the 24 dispatching injections (J1), that primitive values and images go through the checked guards (J2), that lossy numeric casts are dominated by a round-trip test (J3), that narrowing / non-monotone conversions can refuse and only map single values (J4), untruncated value enumerations (N1) and a single value-conversion entry point (J5). "
                  "Injectivity of format!-based renderings and composite liftings over all values are not decided.",
         "design_ref": "DESIGN.md §3 C12",
         "note": "Trusted: the reviewed classification of primitive pairs (PAIRS in qv/c12.py); a new pair is UNDECIDED.",
     },
     "C14": {
         "technique": "audit of the bijection list against a reviewed injective table, decision-term extraction of Reduce::schema_aggregate, flag pairing in Join::schema, who-may-attach-a-constraint inventory (syn AST)",
-        "level": "Decides that uniqueness is only propagated through functions reviewed as injective (U1), that a group key's UNIQUE depends on the grouping (U2), that join constraints are kept under the other side's key uniqueness with both sides involved (U3), that Values is UNIQUE only when literals are distinct (U4), that the key predicate is true exactly for Unique / PrimaryKey (U5) and that no other site attaches constraints (U0).",
+        "level": "Decides that uniqueness is only propagated through functions reviewed as injective (U1), that a group key's UNIQUE depends on the grouping (U2), that join constraints are kept under the other side's key uniqueness with both sides involved (U3), that Values is UNIQUE only when literals are distinct (U4), that the key predicate is true exactly for Unique / PrimaryKey (U5) that no other site attaches constraints (U0) and that constraints are read through an exact field lookup (H8).",
         "design_ref": "DESIGN.md §3 C14",
         "note": "Trusted: base tables honour their constraints; floating-point collisions of exp/ln/sqrt and md5 collisions accepted by the reviewed table.",
     },
     "C15": {
         "technique": "simulation of the Found fold and of the Found->Option conversion on all states, call-order/arm tables of Hierarchy lookups, arm table of USING/NATURAL coalescing (syn AST)",
-        "level": "Decides that ambiguity is absorbing and only a single suffix match yields a result (H1), that the exact lookup precedes the suffix search and every accessor goes through it over an ordered map (H2), the suffix predicate (H3), that USING coalesces only the listed columns (H4), that a CTE captures only whole-name unresolved references (H5), that last() decides through the lookup (H6) and that FROM items are registered under alias or whole table path (H7). "
+        "level": "Decides that ambiguity is absorbing and only a single suffix match yields a result (H1), that the exact lookup precedes the suffix search and every accessor goes through it over an ordered map (H2), the suffix predicate (H3), that USING coalesces only the listed columns (H4), that a CTE captures only whole-name unresolved references (H5), that last() decides through the lookup (H6) that FROM items are registered under alias or whole table path (H7), exact field lookup inside a schema (H8) and a single whole-path column lookup in expressions (H9). "
                  "The lookup law over all maps/paths and which column sets reach the lookup from SQL are not decided as a whole.",
         "design_ref": "DESIGN.md §3 C15",
         "note": "Restructured folds fail closed (UNDECIDED).",
     },
     "C17": {
         "technique": "per-translator renderer tables from the MIR (override or default, abort analysis, SQL spelling constants) joined with each dialect's reader table from the AST; dialect pairing; quote characters evaluated against sqlparser's own dialect source",
-        "level": "Decides for the eight translators that every operator in scope is rendered without abort (E3d), under a spelling the same dialect's reader reads back as the same operator (E4d), that each translator reads with its own sqlparser dialect (E5d), quotes identifiers with a character that dialect accepts (E6), and the shared rendering rules E7-E9, E12, E13. "
+        "level": "Decides for the eight translators that every operator in scope is rendered without abort (E3d), under a spelling the same dialect's reader reads back as the same operator (E4d), that each translator reads with its own sqlparser dialect (E5d), quotes identifiers with a character that dialect accepts (E6), and the shared rendering rules E7-E9, E12-E14. "
                  "Acceptance by the real engines and per-engine semantics are not decided.",
         "design_ref": "DESIGN.md §3 C17",
         "note": "Trusted: sqlparser source in the cargo registry at the version pinned by /repo/Cargo.lock.",
@@ -127,7 +127,7 @@ CHECKS = {
     },
     "C18": {
         "technique": "reachability over the monomorphic call graph (rustc MIR driver) + MIR switch/assert facts: inventory of explicit aborts keyed by the enum variants that select them, unchecked i64 arithmetic with a reviewed safe table, dispatch-table holes",
-        "level": "Inventory: every todo!/unimplemented!/panic!/unreachable! (P1), every overflow-checked i64 operation outside a reviewed safe table (P2) and every hole of the two implementation dispatch tables (E1) that is reachable from the "
+        "level": "Inventory: every todo!/unimplemented!/panic!/unreachable! (P1), every overflow-checked i64 operation outside a reviewed safe table (P2) every unwrap of the by-design refusal Variant::try_empty (P5) and every hole of the two implementation dispatch tables (E1) that is reachable from the "
                  "public entry points is reported; the sites on the pinned tree are input-confirmed known findings, any new one is a violation. unwrap/expect, indexing, assert! preconditions and termination are not decided.",
         "design_ref": "DESIGN.md §3 C18",
         "note": "Trusted: as C16. The 175 P1 findings are one class (unsupported construct -> abort instead of Err); a sample was confirmed by input with a probe binary (DESIGN §6).",
